@@ -554,9 +554,9 @@ func phases(thorough bool) []phase {
 			phase{"one packet fault and one scheduling deviation", mkc(small[:2], 6, 3), vx.Bounds{1, 1, 1, 0, 1}, 2, 400})
 	} else {
 		ph = append(ph,
-			phase{"two packet faults anywhere among the first 14 packets of each direction", append(mkc(small, 14, 3), mkc(big, 14, 70000)...), vx.Bounds{0, 0, 0, 0, 2}, 2, 0},
 			phase{"three packet faults among the first 8 packets of each direction", mkc(small, 8, 3), vx.Bounds{0, 0, 0, 0, 3}, 3, 0},
-			phase{"one packet fault and two scheduling deviations", mkc(small[:2], 6, 3), vx.Bounds{2, 2, 2, 1, 1}, 3, 400})
+			phase{"one packet fault and two scheduling deviations", mkc(small[:2], 6, 3), vx.Bounds{2, 2, 2, 1, 1}, 3, 400},
+			phase{"two packet faults anywhere among the first 14 packets of each direction", append(mkc(small, 14, 3), mkc(big, 14, 70000)...), vx.Bounds{0, 0, 0, 0, 2}, 2, 0})
 	}
 	return ph
 }
